@@ -9,7 +9,7 @@
     and the identifiers the rewrite writes into the SQL — always have the same
     length (C02_star_arity_partial), so inference and embedded text cannot drift apart
     for a star whatever the tables in scope are. *)
-From Verif Require Import Model.Compile Spec.PgScope Judge.JQ Judge.J02 Proofs.ColumnsFacts Proofs.CompileFacts2 Proofs.ArityFacts Proofs.ScopeRefine Proofs.ScopeRefineT Proofs.SelectRefine.
+From Verif Require Import Model.Compile Spec.PgScope Judge.JQ Judge.J02 Proofs.ColumnsFacts Proofs.CompileFacts2 Proofs.ArityFacts Proofs.ScopeRefine Proofs.ScopeRefineT Proofs.SelectRefine Proofs.DeleteRefine.
 Open Scope string_scope.
 Open Scope list_scope.
 
@@ -132,6 +132,25 @@ Proof.
   destruct (describe (env_cat e) strict deep (S (S f)) [] [] stmt); destruct (output_columns (S g) e [] stmt); auto.
 Qed.
 Print Assumptions C02_simple_select_partial.
+
+(** the same for DELETE FROM <base table> [WHERE ...] RETURNING <targets> (no USING) *)
+Theorem C02_simple_delete_partial : forall (e : env) (strict deep : bool) (stmt : node) (targets : list node) (f : nat),
+  kind_of stmt = "DeleteStmt" -> kid "WithClause" stmt = Nil ->
+  kid "ReturningList" stmt = NList targets ->
+  kind_of (kid "Relation" stmt) = "RangeVar" -> kid "UsingClause" stmt = Nil ->
+  (if strict then level_refs (NList [kid "WhereClause" stmt]) else paired_refs (NList [kid "WhereClause" stmt])) = [] ->
+  level_subselects (NList ([kid "WhereClause" stmt] ++ map (kid "Val") targets ++ [])) = [] ->
+  (if deep then level_refs (NList (map (kid "Val") targets)) else direct_refs targets) = refs_of targets ->
+  (forall sc, spec_scope (env_cat e) [kid "Relation" stmt] = POk sc ->
+     Forall (fun it => NoDup (map sc_name (si_cols it))) sc /\ Forall (target_ok sc) targets) ->
+  forall g,
+  match describe (env_cat e) strict deep (S (S f)) [] [] stmt, output_columns (S g) e [] stmt with
+  | POk row, Ok cols => Forall2 row_rel row cols
+  | PErr _, Err _ => True
+  | _, _ => False
+  end.
+Proof. exact simple_delete_refines_t. Qed.
+Print Assumptions C02_simple_delete_partial.
 
 (** the hypotheses are met by SELECT id, x.STAR, count(STAR) FROM t AS x (and the
     conclusion is the non-trivial branch: both accept, three columns) *)
